@@ -29,7 +29,7 @@ HOSTS = [("h.com", "h.com"), ("é.com", "é.com"), ("127.0.0.1", "127.0.0.1"), (
          # swept with the one-letter space only: fully qualified (trailing dot) names, names only the IDNA-2003 fallback codec accepts
          # (symbols, underscore labels), both at once, an IPv6 zone, an A-label given as such
          ("h.com.", "h.com."), ("é.com.", "é.com."), ("☃.net", "☃.net"), ("☃.net.", "☃.net."), ("_dmarc.é.com.", "_dmarc.é.com."),
-         ("fe80::1%eth0", "[fe80::1%eth0]"), ("xn--9ca.com", "é.com")]
+         ("fe80::1%eth0", "[fe80::1%eth0]"), ("xn--9ca.com", "é.com"), ("fe80::1%251", "[fe80::1%251]")]
 MAIN_HOSTS = 4
 POSITIONS = ["user", "password", "path", "qkey", "qval", "fragment", "all", "path_only", "default_port", "default_port_userinfo",
              "password_then_with_user", "user_then_with_password"]
